@@ -138,7 +138,10 @@ Definition poly_optimize (O : oracle) (self : list pterm) (objective : pvars) (m
   match O (mkLP vs c (map (term_to_row vs) self)) with
   | LpUnbounded => ret None
   | LpOpt f _ => ret (Some (qmul polarity f))
-  | LpInfeasible | LpOther _ => raise ValueErr
+  | LpInfeasible =>
+      (* status 2 may also mean "unbounded": decide emptiness separately (self.is_empty()) *)
+      e <- poly_is_empty O self ;; if e then raise ValueErr else ret None
+  | LpOther _ => raise ValueErr
   | LpMiss => raise OracleMiss
   end end end.
 
